@@ -675,12 +675,12 @@ func freeRound(backend string, s kvs.Storage, seed int64, run *report.Run) []frF
 // forEachScript enumerates the scripts of this tier and seed lazily (the thorough tier has tens of millions:
 // materialising them once cost 13 GB and the OOM killer); fn gets a running index.
 func forEachScript(run *report.Run, fn func(i int, sc script)) {
-	depth := run.Pick(4, 6)
+	depth := run.Pick(4, 5)
 	i := 0
 	enumerate(depth, func(s script) { fn(i, s); i++ })
 	// random deeper scripts
 	rng := rand.New(rand.NewSource(run.Seed()))
-	for j := 0; j < run.Pick(300000, 1500000); j++ {
+	for j := 0; j < run.Pick(300000, 3000000); j++ {
 		n := depth + 1 + rng.Intn(6)
 		var evs []ev
 		for len(evs) < n {
@@ -795,7 +795,7 @@ func TestCheck(t *testing.T) {
 		replay(t, run, p)
 		return
 	}
-	depth := run.Pick(4, 6)
+	depth := run.Pick(4, 5)
 	run.Note("script_depth", depth)
 	// one bubble per process: the library's global version generator (a mutex) must not be shared between bubbles
 	for c := range shard.Run(run, "TestChild", "scripted", runtime.NumCPU(), 40*time.Minute) {
